@@ -70,12 +70,15 @@ var redirectNames = map[string]string{
 	"(*sync.RWMutex).RUnlock":                             "verifStubRUnlock",
 	"(*sync.RWMutex).Lock":                                "verifStubLock",
 	"(*sync.RWMutex).Unlock":                              "verifStubUnlock",
+	"(*sync.Mutex).Lock":                                  "verifStubMutexLock",
+	"(*sync.Mutex).Unlock":                                "verifStubMutexUnlock",
 	"encoding/hex.EncodeToString":                         "verifStubHexEncode",
 	"encoding/hex.DecodeString":                           "verifStubHexDecode",
 	"strings.TrimPrefix":                                  "verifStubTrimPrefix",
 	"bytes.Equal":                                         "verifStubBytesEqual",
 	"encoding/json.Marshal":                               "verifStubJSONMarshal",
 	"strconv.ParseFloat":                                  "verifStubParseFloat",
+	"strconv.FormatFloat":                                 "verifStubFormatFloat",
 }
 
 var initAllow = map[string]bool{
